@@ -175,9 +175,9 @@ class C08(Prop):
                     ev.append("reset")
                 elif u < 0.98:
                     ev.append("clear")
-                else:   # a public attribute of the live loop is re-assigned (the breaker's own on/off switch excepted)
-                    k = rng.choice(["thr", "thr", "tmo", "tmo", "ttl", "cache", "agents", "gate"])
-                    ev.append(("set", k, {"thr": rng.choice([1, 2, 3, 5]), "tmo": rng.choice([TMO, 1_000_000, 1, 2 * TMO]),
+                else:   # a public attribute of the live loop is re-assigned (the breaker's own on/off switch included)
+                    k = rng.choice(["thr", "thr", "tmo", "tmo", "ttl", "cache", "agents", "gate", "breaker", "breaker"])
+                    ev.append(("set", k, {"breaker": rng.choice([0, 0, 1]), "thr": rng.choice([1, 2, 3, 5]), "tmo": rng.choice([TMO, 1_000_000, 1, 2 * TMO]),
                                           "ttl": rng.choice([TTL, 1, 0]), "cache": rng.choice([0, 1]), "agents": 0,
                                           "gate": rng.choice(GATES)}[k]))
             c = self._history(ev, thr, tmo, gate, breaker, cache, "random",
@@ -202,6 +202,15 @@ class C08(Prop):
                 for probe in ("succ", "efail", "block", "hit", "exc"):
                     big.append(self._history(["succ"] + ["efail"] * thr + [("adv", adv), probe, "succ"], thr,
                                              note="trip, very large clock advance, probe"))
+        for thr in (1, 2, 3):
+            for first in ("succ", "efail", "exc", "block", "hit"):
+                big.append(self._history(["succ"] + ["efail"] * thr + [("set", "breaker", 0), first, "efail", "succ",
+                                                                      ("set", "breaker", 1), "succ", ("adv", TMO), "succ", "efail"],
+                                         thr, note="tripped, then the breaker is switched off on the live loop (agents must be "
+                                                   "consulted) and on again"))
+            big.append(self._history(["efail"] * thr + [("set", "thr", thr + 2), "succ", ("adv", TMO), "efail",
+                                                        ("set", "tmo", 1), ("adv", 1), "succ", ("set", "thr", 1), "efail", "succ"],
+                                     thr, note="threshold / timeout re-assigned on the live loop"))
         for thr in (1, 2, 3):
             for budget in BUDGETS:
                 big.append(self._history(["succ", "succ", "succ", ("adv", TMO), "succ", "block"], thr, budget=budget,
@@ -265,8 +274,12 @@ class C08(Prop):
                     tmo = int(t[2])
                 elif t[1] == "gate":
                     gate = t[2] if t[2] in GATES else "and"
-                elif t[1] == "breaker":     # (not generated for C08: the bookkeeping below does not follow a disabled period)
-                    break
+                elif t[1] == "breaker":
+                    # the text speaks about the enabled breaker; while it is switched off only "agents are always consulted"
+                    # is judged, and when it is switched on again the bookkeeping restarts from what the loop reports
+                    enabled = t[2] == "1"
+                    if enabled:
+                        last_fail_at, since_clear, streak = o.last_failure, o.failures, 0
             elif t[0] == "run" and len(t) == 4:
                 z, y = actual[idx]      # the verdicts actually returned on this request (None = not consulted)
                 calls = o.ecalls + o.acalls - p_calls
